@@ -18,25 +18,93 @@ impl From<LexError> for ParseError {
 
 type R<T> = Result<T, ParseError>;
 
-/// Documented deviation of the crate: selection sets nest at most this deep.
+/// Documented deviation of the crate: selection sets nest at most this deep
+/// *below* the selection set of an operation or fragment definition (which is
+/// level 0), i.e. 65 levels of braces parse and 66 do not
+/// (`MAX_RECURSION_DEPTH` in parser/src/parse/executable.rs, pinned by
+/// parser/tests/recursion_limit.rs).
 pub const MAX_SELECTION_DEPTH: usize = 64;
+
+/// A syntax-tree node the parser started at a token (pre-order = source order).
+#[derive(Clone, Debug, PartialEq)]
+pub struct Event {
+    pub kind: &'static str,
+    pub pos: Pos,
+    /// char offset of the node's first token
+    pub off: usize,
+}
+
+/// Which production consumed a token.
+#[derive(Clone, Debug, PartialEq)]
+pub struct TokenUse {
+    /// char offsets of the token (start, end)
+    pub off: usize,
+    pub end: usize,
+    /// innermost production active when the token was consumed, and the one around it
+    pub prod: &'static str,
+    pub outer: &'static str,
+}
+
+/// Side table of a traced parse (`parse_exec_traced`, `parse_ts_traced`).
+#[derive(Clone, Debug, Default, PartialEq)]
+pub struct Trace {
+    pub events: Vec<Event>,
+    pub tokens: Vec<TokenUse>,
+    /// production stack at the point of failure (innermost last); empty on success
+    pub failed_in: Vec<&'static str>,
+}
 
 struct P<'a> {
     lx: Lexer<'a>,
     tok: Token,
+    tok_end: usize,
     depth: usize,
     limit_depth: bool,
+    stack: Vec<&'static str>,
+    trace: Option<Trace>,
 }
 
 impl<'a> P<'a> {
     fn new(src: &'a str) -> R<P<'a>> {
         let mut lx = Lexer::new(src);
         let tok = lx.next()?;
-        Ok(P { lx, tok, depth: 0, limit_depth: true })
+        let tok_end = lx.offset();
+        Ok(P { lx, tok, tok_end, depth: 0, limit_depth: true, stack: Vec::new(), trace: None })
     }
     fn adv(&mut self) -> R<Token> {
+        if let Some(t) = &mut self.trace {
+            let n = self.stack.len();
+            t.tokens.push(TokenUse {
+                off: self.tok.off,
+                end: self.tok_end,
+                prod: if n >= 1 { self.stack[n - 1] } else { "Document" },
+                outer: if n >= 2 { self.stack[n - 2] } else { "Document" },
+            });
+        }
         let n = self.lx.next()?;
+        self.tok_end = self.lx.offset();
         Ok(std::mem::replace(&mut self.tok, n))
+    }
+    /// Enter a production (popped by `leave`; left on the stack when an error propagates).
+    fn enter(&mut self, prod: &'static str) {
+        self.stack.push(prod);
+    }
+    fn leave(&mut self) {
+        self.stack.pop();
+    }
+    /// Record that a tree node of `kind` starts at the current token.
+    fn node(&mut self, kind: &'static str) {
+        if let Some(t) = &mut self.trace {
+            t.events.push(Event { kind, pos: self.tok.pos, off: self.tok.off });
+        }
+    }
+    fn node_at(&mut self, idx: usize, kind: &'static str, pos: Pos, off: usize) {
+        if let Some(t) = &mut self.trace {
+            t.events.insert(idx, Event { kind, pos, off });
+        }
+    }
+    fn event_count(&self) -> usize {
+        self.trace.as_ref().map(|t| t.events.len()).unwrap_or(0)
     }
     fn err<T>(&self, msg: &str) -> R<T> {
         Err(ParseError { msg: format!("{msg}, found {:?}", self.tok.t), pos: self.tok.pos, off: self.tok.off })
@@ -81,14 +149,26 @@ impl<'a> P<'a> {
 
     // ---------------------------------------------------------------- values
     fn value(&mut self, is_const: bool) -> R<PValue> {
+        self.enter("Value");
+        let r = self.value_inner(is_const);
+        if r.is_ok() {
+            self.leave();
+        }
+        r
+    }
+
+    fn value_inner(&mut self, is_const: bool) -> R<PValue> {
         let pos = self.tok.pos;
         let v = match self.tok.t.clone() {
             Tok::Punct("$") => {
                 if is_const {
                     return self.err("variable in constant context");
                 }
+                self.enter("Variable");
                 self.adv()?;
-                Value::Var(self.name()?.s)
+                let n = self.name()?.s;
+                self.leave();
+                Value::Var(n)
             }
             Tok::Int(s) => {
                 self.adv()?;
@@ -112,29 +192,44 @@ impl<'a> P<'a> {
                 }
             }
             Tok::Punct("[") => {
+                self.enter("ListValue");
                 self.adv()?;
                 let mut items = Vec::new();
                 while !self.is_p("]") {
                     items.push(self.value(is_const)?);
                 }
                 self.adv()?;
+                self.leave();
                 Value::List(items)
             }
             Tok::Punct("{") => {
+                self.enter("ObjectValue");
                 self.adv()?;
                 let mut fields = Vec::new();
                 while !self.is_p("}") {
+                    self.enter("ObjectField");
                     let n = self.name()?;
                     self.expect_p(":")?;
                     let v = self.value(is_const)?;
+                    self.leave();
                     fields.push((n, v));
                 }
                 self.adv()?;
+                self.leave();
                 Value::Object(fields)
             }
             _ => return self.err("expected a value"),
         };
         Ok(PValue { v, pos })
+    }
+
+    /// A type in a position where the tree has a node for it.
+    fn ty_node(&mut self) -> R<Type> {
+        self.node("Type");
+        self.enter("Type");
+        let t = self.ty()?;
+        self.leave();
+        Ok(t)
     }
 
     fn ty(&mut self) -> R<Type> {
@@ -154,17 +249,24 @@ impl<'a> P<'a> {
 
     fn arguments(&mut self, is_const: bool) -> R<Vec<(PName, PValue)>> {
         let mut args = Vec::new();
-        if self.eat_p("(")? {
+        if self.is_p("(") {
+            self.enter("Arguments");
+            self.adv()?;
             loop {
+                self.enter("Argument");
+                self.node("ArgName");
                 let n = self.name()?;
                 self.expect_p(":")?;
+                self.node("Value");
                 let v = self.value(is_const)?;
+                self.leave();
                 args.push((n, v));
                 if self.is_p(")") {
                     break;
                 }
             }
             self.adv()?;
+            self.leave();
         }
         Ok(args)
     }
@@ -172,9 +274,13 @@ impl<'a> P<'a> {
     fn directives(&mut self, is_const: bool) -> R<Vec<Directive>> {
         let mut ds = Vec::new();
         while self.is_p("@") {
+            self.enter("Directive");
+            self.node("Directive");
             let pos = self.adv()?.pos;
+            self.node("DirName");
             let name = self.name()?;
             let args = self.arguments(is_const)?;
+            self.leave();
             ds.push(Directive { name, args, pos });
         }
         Ok(ds)
@@ -182,9 +288,13 @@ impl<'a> P<'a> {
 
     // ------------------------------------------------------------ executable
     fn selection_set(&mut self) -> R<Vec<Selection>> {
+        self.enter("SelectionSet");
+        self.node("SelectionSet");
         self.expect_p("{")?;
         self.depth += 1;
-        if self.limit_depth && self.depth > MAX_SELECTION_DEPTH {
+        // the selection set of the definition itself is level 0 (see MAX_SELECTION_DEPTH)
+        if self.limit_depth && self.depth > MAX_SELECTION_DEPTH + 1 {
+            self.enter("NestingLimit");
             return self.err("selection sets nested too deeply");
         }
         let mut sels = Vec::new();
@@ -196,53 +306,105 @@ impl<'a> P<'a> {
         }
         self.adv()?;
         self.depth -= 1;
+        self.leave();
         Ok(sels)
     }
 
     fn selection(&mut self) -> R<Selection> {
         let pos = self.tok.pos;
-        if self.eat_p("...")? {
+        let off = self.tok.off;
+        self.node("Selection");
+        if self.is_p("...") {
+            let at = self.event_count();
+            self.enter("FragmentSpreadOrInlineFragment");
+            self.adv()?;
             if self.is_kw("on") {
+                self.leave();
+                self.enter("InlineFragment");
+                self.node_at(at, "Inline", pos, off);
+                self.enter("TypeCondition");
+                self.node("TypeCondition");
                 self.adv()?;
+                self.node("CondName");
                 let cond = self.name()?;
+                self.leave();
                 let directives = self.directives(false)?;
                 let sel = self.selection_set()?;
+                self.leave();
                 return Ok(Selection::Inline(Inline { cond: Some(cond), directives, sel, pos }));
             }
             if let Tok::Name(_) = self.tok.t {
+                self.leave();
+                self.enter("FragmentSpread");
+                self.node_at(at, "Spread", pos, off);
+                self.node("SpreadName");
                 let name = self.name()?;
                 let directives = self.directives(false)?;
+                self.leave();
                 return Ok(Selection::Spread(Spread { name, directives, pos }));
             }
+            self.leave();
+            self.enter("InlineFragment");
+            self.node_at(at, "Inline", pos, off);
             let directives = self.directives(false)?;
             let sel = self.selection_set()?;
+            self.leave();
             return Ok(Selection::Inline(Inline { cond: None, directives, sel, pos }));
         }
+        self.enter("Field");
+        self.node("Field");
+        let at = self.event_count();
+        let first_pos = self.tok.pos;
+        let first_off = self.tok.off;
         let first = self.name()?;
-        let (alias, name) = if self.eat_p(":")? { (Some(first), self.name()?) } else { (None, first) };
+        let (alias, name) = if self.eat_p(":")? {
+            self.node_at(at, "Alias", first_pos, first_off);
+            self.node("FieldName");
+            (Some(first), self.name()?)
+        } else {
+            self.node_at(at, "FieldName", first_pos, first_off);
+            (None, first)
+        };
         let args = self.arguments(false)?;
         let directives = self.directives(false)?;
         let sel = if self.is_p("{") { self.selection_set()? } else { Vec::new() };
+        self.leave();
         Ok(Selection::Field(Field { alias, name, args, directives, sel, pos }))
     }
 
     fn var_defs(&mut self) -> R<Vec<VarDef>> {
         let mut vs = Vec::new();
-        if self.eat_p("(")? {
+        if self.is_p("(") {
+            self.enter("VariableDefinitions");
+            self.adv()?;
             loop {
+                self.enter("VariableDefinition");
+                self.node("VarDef");
                 let pos = self.expect_p("$")?;
+                self.node("VarName");
                 let name = self.name()?;
                 self.expect_p(":")?;
                 let ty_pos = self.tok.pos;
-                let ty = self.ty()?;
-                let default = if self.eat_p("=")? { Some(self.value(true)?) } else { None };
+                let ty = self.ty_node()?;
+                let default = if self.is_p("=") {
+                    self.enter("DefaultValue");
+                    self.adv()?;
+                    self.node("Value");
+                    let v = self.value(true)?;
+                    self.leave();
+                    Some(v)
+                } else {
+                    None
+                };
                 let directives = self.directives(true)?;
+                self.leave();
                 vs.push(VarDef { name, ty, ty_pos, default, directives, pos });
                 if self.is_p(")") {
                     break;
                 }
             }
             self.adv()?;
+            self.leave();
         }
         Ok(vs)
     }
@@ -250,7 +412,10 @@ impl<'a> P<'a> {
     fn exec_def(&mut self) -> R<ExecDef> {
         let pos = self.tok.pos;
         if self.is_p("{") {
+            self.enter("OperationDefinition");
+            self.node("Operation");
             let sel = self.selection_set()?;
+            self.leave();
             return Ok(ExecDef::Op(Operation { kind: OpKind::Query, shorthand: true, name: None, vars: vec![], directives: vec![], sel, pos }));
         }
         let kind = match &self.tok.t {
@@ -260,26 +425,44 @@ impl<'a> P<'a> {
             _ => None,
         };
         if let Some(kind) = kind {
+            self.enter("OperationDefinition");
+            self.node("Operation");
             self.adv()?;
-            let name = if let Tok::Name(_) = self.tok.t { Some(self.name()?) } else { None };
+            let name = if let Tok::Name(_) = self.tok.t {
+                self.node("OpName");
+                Some(self.name()?)
+            } else {
+                None
+            };
             let vars = self.var_defs()?;
             let directives = self.directives(false)?;
             let sel = self.selection_set()?;
+            self.leave();
             return Ok(ExecDef::Op(Operation { kind, shorthand: false, name, vars, directives, sel, pos }));
         }
         if self.is_kw("fragment") {
+            self.enter("FragmentDefinition");
+            self.node("Fragment");
             self.adv()?;
             // FragmentName :: Name but not `on`
             if self.is_kw("on") {
+                self.enter("FragmentName");
                 return self.err("fragment name must not be 'on'");
             }
+            self.node("FragName");
             let name = self.name()?;
+            self.enter("TypeCondition");
+            self.node("TypeCondition");
             self.expect_kw("on")?;
+            self.node("CondName");
             let cond = self.name()?;
+            self.leave();
             let directives = self.directives(false)?;
             let sel = self.selection_set()?;
+            self.leave();
             return Ok(ExecDef::Frag(Fragment { name, cond, directives, sel, pos }));
         }
+        self.enter("ExecutableDefinition");
         self.err("expected an executable definition")
     }
 
@@ -287,7 +470,10 @@ impl<'a> P<'a> {
     fn description(&mut self) -> R<Option<String>> {
         match self.tok.t.clone() {
             Tok::Str(s) | Tok::BlockStr(s) => {
+                self.enter("Description");
+                self.node("Description");
                 self.adv()?;
+                self.leave();
                 Ok(Some(s))
             }
             _ => Ok(None),
@@ -295,18 +481,33 @@ impl<'a> P<'a> {
     }
 
     fn input_value_def(&mut self) -> R<InputValueDef> {
+        self.enter("InputValueDefinition");
+        self.node("InputValueDef");
         let desc = self.description()?;
+        self.node("Name");
         let name = self.name()?;
         self.expect_p(":")?;
-        let ty = self.ty()?;
-        let default = if self.eat_p("=")? { Some(self.value(true)?) } else { None };
+        let ty = self.ty_node()?;
+        let default = if self.is_p("=") {
+            self.enter("DefaultValue");
+            self.adv()?;
+            self.node("Value");
+            let v = self.value(true)?;
+            self.leave();
+            Some(v)
+        } else {
+            None
+        };
         let directives = self.directives(true)?;
+        self.leave();
         Ok(InputValueDef { desc, name, ty, default, directives })
     }
 
     fn args_def(&mut self) -> R<Vec<InputValueDef>> {
         let mut v = Vec::new();
-        if self.eat_p("(")? {
+        if self.is_p("(") {
+            self.enter("ArgumentsDefinition");
+            self.adv()?;
             loop {
                 v.push(self.input_value_def()?);
                 if self.is_p(")") {
@@ -314,26 +515,34 @@ impl<'a> P<'a> {
                 }
             }
             self.adv()?;
+            self.leave();
         }
         Ok(v)
     }
 
     fn fields_def(&mut self) -> R<Vec<FieldDef>> {
         let mut v = Vec::new();
-        if self.eat_p("{")? {
+        if self.is_p("{") {
+            self.enter("FieldsDefinition");
+            self.adv()?;
             loop {
+                self.enter("FieldDefinition");
+                self.node("FieldDef");
                 let desc = self.description()?;
+                self.node("Name");
                 let name = self.name()?;
                 let args = self.args_def()?;
                 self.expect_p(":")?;
-                let ty = self.ty()?;
+                let ty = self.ty_node()?;
                 let directives = self.directives(true)?;
+                self.leave();
                 v.push(FieldDef { desc, name, args, ty, directives });
                 if self.is_p("}") {
                     break;
                 }
             }
             self.adv()?;
+            self.leave();
         }
         Ok(v)
     }
@@ -341,21 +550,48 @@ impl<'a> P<'a> {
     fn implements(&mut self) -> R<Vec<PName>> {
         let mut v = Vec::new();
         if self.is_kw("implements") {
+            self.enter("ImplementsInterfaces");
             self.adv()?;
             self.eat_p("&")?;
+            self.node("ImplName");
             v.push(self.name()?);
             while self.eat_p("&")? {
+                self.node("ImplName");
                 v.push(self.name()?);
             }
+            self.leave();
         }
         Ok(v)
     }
 
+    /// §3.13 DirectiveLocation: one of the ExecutableDirectiveLocation / TypeSystemDirectiveLocation names.
+    fn location(&mut self) -> R<PName> {
+        if let Tok::Name(n) = &self.tok.t {
+            if !DIRECTIVE_LOCATIONS.contains(&n.as_str()) {
+                return self.err("expected a directive location");
+            }
+        }
+        self.node("Location");
+        self.name()
+    }
+
     fn ts_def(&mut self) -> R<TsDef> {
+        self.enter("TypeSystemDefinition");
+        let r = self.ts_def_inner();
+        if r.is_ok() {
+            self.leave();
+        }
+        r
+    }
+
+    fn ts_def_inner(&mut self) -> R<TsDef> {
         let pos = self.tok.pos;
+        let off = self.tok.off;
+        let at = self.event_count();
         let desc = self.description()?;
         let extend = if self.is_kw("extend") {
             if desc.is_some() {
+                self.enter("Extension");
                 return self.err("extensions take no description");
             }
             self.adv()?;
@@ -364,13 +600,43 @@ impl<'a> P<'a> {
             false
         };
         let Tok::Name(kw) = self.tok.t.clone() else { return self.err("expected a type system definition") };
-        match kw.as_str() {
+        let (label, nodekind): (&'static str, &'static str) = match (kw.as_str(), extend) {
+            ("schema", false) => ("SchemaDefinition", "SchemaDef"),
+            ("schema", true) => ("SchemaExtension", "SchemaDef"),
+            ("scalar", false) => ("ScalarTypeDefinition", "TypeDef"),
+            ("scalar", true) => ("ScalarTypeExtension", "TypeDef"),
+            ("type", false) => ("ObjectTypeDefinition", "TypeDef"),
+            ("type", true) => ("ObjectTypeExtension", "TypeDef"),
+            ("interface", false) => ("InterfaceTypeDefinition", "TypeDef"),
+            ("interface", true) => ("InterfaceTypeExtension", "TypeDef"),
+            ("union", false) => ("UnionTypeDefinition", "TypeDef"),
+            ("union", true) => ("UnionTypeExtension", "TypeDef"),
+            ("enum", false) => ("EnumTypeDefinition", "TypeDef"),
+            ("enum", true) => ("EnumTypeExtension", "TypeDef"),
+            ("input", false) => ("InputObjectTypeDefinition", "TypeDef"),
+            ("input", true) => ("InputObjectTypeExtension", "TypeDef"),
+            ("directive", _) => ("DirectiveDefinition", "DirectiveDef"),
+            _ => return self.err("expected a type system definition"),
+        };
+        self.node_at(at, nodekind, pos, off);
+        self.enter(label);
+        let r = self.ts_def_body(&kw, extend, desc, pos);
+        if r.is_ok() {
+            self.leave();
+        }
+        r
+    }
+
+    fn ts_def_body(&mut self, kw: &str, extend: bool, desc: Option<String>, pos: Pos) -> R<TsDef> {
+        match kw {
             "schema" => {
                 self.adv()?;
                 let directives = self.directives(true)?;
                 let mut roots = Vec::new();
                 if self.eat_p("{")? {
                     loop {
+                        self.enter("RootOperationTypeDefinition");
+                        self.node("RootKind");
                         let k = self.name()?;
                         let kind = match k.s.as_str() {
                             "query" => OpKind::Query,
@@ -379,7 +645,9 @@ impl<'a> P<'a> {
                             _ => return Err(ParseError { msg: "expected an operation type".into(), pos: k.pos, off: 0 }),
                         };
                         self.expect_p(":")?;
+                        self.node("RootType");
                         roots.push((kind, self.name()?));
+                        self.leave();
                         if self.is_p("}") {
                             break;
                         }
@@ -392,6 +660,7 @@ impl<'a> P<'a> {
             }
             "scalar" => {
                 self.adv()?;
+                self.node("Name");
                 let name = self.name()?;
                 let directives = self.directives(true)?;
                 if extend && directives.is_empty() {
@@ -401,6 +670,7 @@ impl<'a> P<'a> {
             }
             "type" | "interface" => {
                 self.adv()?;
+                self.node("Name");
                 let name = self.name()?;
                 let interfaces = self.implements()?;
                 let directives = self.directives(true)?;
@@ -413,15 +683,21 @@ impl<'a> P<'a> {
             }
             "union" => {
                 self.adv()?;
+                self.node("Name");
                 let name = self.name()?;
                 let directives = self.directives(true)?;
                 let mut members = Vec::new();
-                if self.eat_p("=")? {
+                if self.is_p("=") {
+                    self.enter("UnionMemberTypes");
+                    self.adv()?;
                     self.eat_p("|")?;
+                    self.node("MemberName");
                     members.push(self.name()?);
                     while self.eat_p("|")? {
+                        self.node("MemberName");
                         members.push(self.name()?);
                     }
+                    self.leave();
                 }
                 if extend && directives.is_empty() && members.is_empty() {
                     return self.err("empty extension");
@@ -430,23 +706,31 @@ impl<'a> P<'a> {
             }
             "enum" => {
                 self.adv()?;
+                self.node("Name");
                 let name = self.name()?;
                 let directives = self.directives(true)?;
                 let mut values = Vec::new();
-                if self.eat_p("{")? {
+                if self.is_p("{") {
+                    self.enter("EnumValuesDefinition");
+                    self.adv()?;
                     loop {
+                        self.enter("EnumValueDefinition");
+                        self.node("EnumValueDef");
                         let desc = self.description()?;
+                        self.node("EnumValueName");
                         let n = self.name()?;
                         if matches!(n.s.as_str(), "true" | "false" | "null") {
                             return Err(ParseError { msg: "enum value must not be true, false or null".into(), pos: n.pos, off: 0 });
                         }
                         let directives = self.directives(true)?;
+                        self.leave();
                         values.push(EnumValueDef { desc, name: n, directives });
                         if self.is_p("}") {
                             break;
                         }
                     }
                     self.adv()?;
+                    self.leave();
                 }
                 if extend && directives.is_empty() && values.is_empty() {
                     return self.err("empty extension");
@@ -455,10 +739,13 @@ impl<'a> P<'a> {
             }
             "input" => {
                 self.adv()?;
+                self.node("Name");
                 let name = self.name()?;
                 let directives = self.directives(true)?;
                 let mut fields = Vec::new();
-                if self.eat_p("{")? {
+                if self.is_p("{") {
+                    self.enter("InputFieldsDefinition");
+                    self.adv()?;
                     loop {
                         fields.push(self.input_value_def()?);
                         if self.is_p("}") {
@@ -466,6 +753,7 @@ impl<'a> P<'a> {
                         }
                     }
                     self.adv()?;
+                    self.leave();
                 }
                 if extend && directives.is_empty() && fields.is_empty() {
                     return self.err("empty extension");
@@ -478,6 +766,7 @@ impl<'a> P<'a> {
                 }
                 self.adv()?;
                 self.expect_p("@")?;
+                self.node("Name");
                 let name = self.name()?;
                 let args = self.args_def()?;
                 let repeatable = if self.is_kw("repeatable") {
@@ -487,11 +776,13 @@ impl<'a> P<'a> {
                     false
                 };
                 self.expect_kw("on")?;
+                self.enter("DirectiveLocations");
                 self.eat_p("|")?;
-                let mut locations = vec![self.name()?];
+                let mut locations = vec![self.location()?];
                 while self.eat_p("|")? {
-                    locations.push(self.name()?);
+                    locations.push(self.location()?);
                 }
+                self.leave();
                 Ok(TsDef::Directive(DirectiveDef { desc, name, args, repeatable, locations, pos }))
             }
             _ => self.err("expected a type system definition"),
@@ -499,8 +790,30 @@ impl<'a> P<'a> {
     }
 }
 
-pub fn parse_exec(src: &str) -> R<ExecDoc> {
-    let mut p = P::new(src)?;
+/// §3.13: the names a directive definition may list after `on`.
+pub const DIRECTIVE_LOCATIONS: [&str; 19] = [
+    "QUERY",
+    "MUTATION",
+    "SUBSCRIPTION",
+    "FIELD",
+    "FRAGMENT_DEFINITION",
+    "FRAGMENT_SPREAD",
+    "INLINE_FRAGMENT",
+    "VARIABLE_DEFINITION",
+    "SCHEMA",
+    "SCALAR",
+    "OBJECT",
+    "FIELD_DEFINITION",
+    "ARGUMENT_DEFINITION",
+    "INTERFACE",
+    "UNION",
+    "ENUM",
+    "ENUM_VALUE",
+    "INPUT_OBJECT",
+    "INPUT_FIELD_DEFINITION",
+];
+
+fn exec_doc(p: &mut P) -> R<ExecDoc> {
     let mut defs = Vec::new();
     loop {
         defs.push(p.exec_def()?);
@@ -511,8 +824,7 @@ pub fn parse_exec(src: &str) -> R<ExecDoc> {
     Ok(ExecDoc { defs })
 }
 
-pub fn parse_ts(src: &str) -> R<TsDoc> {
-    let mut p = P::new(src)?;
+fn ts_doc(p: &mut P) -> R<TsDoc> {
     let mut defs = Vec::new();
     loop {
         defs.push(p.ts_def()?);
@@ -521,6 +833,40 @@ pub fn parse_ts(src: &str) -> R<TsDoc> {
         }
     }
     Ok(TsDoc { defs })
+}
+
+pub fn parse_exec(src: &str) -> R<ExecDoc> {
+    let mut p = P::new(src)?;
+    exec_doc(&mut p)
+}
+
+pub fn parse_ts(src: &str) -> R<TsDoc> {
+    let mut p = P::new(src)?;
+    ts_doc(&mut p)
+}
+
+fn traced<T>(src: &str, f: fn(&mut P) -> R<T>) -> (R<T>, Trace) {
+    let mut p = match P::new(src) {
+        Ok(p) => p,
+        Err(e) => return (Err(e), Trace { failed_in: vec!["Document"], ..Default::default() }),
+    };
+    p.trace = Some(Trace::default());
+    let r = f(&mut p);
+    let mut t = p.trace.take().unwrap();
+    if r.is_err() {
+        t.failed_in = if p.stack.is_empty() { vec!["Document"] } else { p.stack.clone() };
+    }
+    (r, t)
+}
+
+/// `parse_exec` plus the side table of node events / token uses (for position and production matching).
+pub fn parse_exec_traced(src: &str) -> (R<ExecDoc>, Trace) {
+    traced(src, exec_doc)
+}
+
+/// `parse_ts` plus the side table of node events / token uses.
+pub fn parse_ts_traced(src: &str) -> (R<TsDoc>, Trace) {
+    traced(src, ts_doc)
 }
 
 /// Parse a single (possibly non-constant) value, e.g. for printer round-trips.
@@ -564,5 +910,60 @@ mod tests {
         assert!(parse_ts("input Point2D @oneOf { x: Float y: Float = 1.5 }").is_ok());
         assert!(parse_ts("interface I implements J { a: Int }").is_ok());
         assert!(parse_ts("scalar Date @specifiedBy(url: \"x\")").is_ok());
+    }
+
+    #[test]
+    fn directive_locations_are_a_closed_set() {
+        // §3.13 DirectiveLocation: ExecutableDirectiveLocation | TypeSystemDirectiveLocation, each "one of" a fixed list
+        assert!(parse_ts("directive @d on QUERY | FIELD_DEFINITION | INPUT_FIELD_DEFINITION").is_ok());
+        assert!(parse_ts("directive @d on | VARIABLE_DEFINITION").is_ok());
+        assert!(parse_ts("directive @d on a").is_err());
+        assert!(parse_ts("directive @d on QUERY | query").is_err());
+    }
+
+    #[test]
+    fn nesting_limit_counts_levels_below_the_definition() {
+        // documented deviation (parser/src/parse/executable.rs MAX_RECURSION_DEPTH = 64, parser/tests/recursion_limit.rs):
+        // 64 selection sets nested below the operation's own one parse, 65 do not.
+        let doc = |levels: usize| format!("{}b{}", "{ a ".repeat(levels - 1) + "{ ", " }".repeat(levels));
+        assert!(parse_exec(&doc(65)).is_ok());
+        assert!(parse_exec(&doc(66)).is_err());
+        let inl = |levels: usize| format!("{}b{}", "{ ... ".repeat(levels - 1) + "{ ", " }".repeat(levels));
+        assert!(parse_exec(&inl(65)).is_ok());
+        assert!(parse_exec(&inl(66)).is_err());
+        assert!(parse_exec(&format!("fragment f on T {} {}", doc(65), doc(65))).is_ok());
+    }
+
+    #[test]
+    fn trace_lists_nodes_in_source_order() {
+        let (r, t) = parse_exec_traced("query Q($v: [Int!] = [1] @d) { x: f(a: 1) @e ... on T { g } ...F }");
+        assert!(r.is_ok());
+        let kinds: Vec<&str> = t.events.iter().map(|e| e.kind).collect();
+        assert_eq!(
+            kinds,
+            vec![
+                "Operation", "OpName", "VarDef", "VarName", "Type", "Value", "Directive", "DirName", "SelectionSet", "Selection", "Field", "Alias",
+                "FieldName", "ArgName", "Value", "Directive", "DirName", "Selection", "Inline", "TypeCondition", "CondName", "SelectionSet",
+                "Selection", "Field", "FieldName", "Selection", "Spread", "SpreadName"
+            ]
+        );
+        let cols: Vec<u32> = t.events.iter().map(|e| e.pos.col).collect();
+        assert_eq!(&cols[..8], &[1, 7, 9, 10, 13, 22, 26, 27]);
+        assert!(t.failed_in.is_empty());
+        let (r, t) = parse_exec_traced("query () { f }");
+        assert!(r.is_err());
+        assert_eq!(t.failed_in, vec!["OperationDefinition", "VariableDefinitions", "VariableDefinition"]);
+        let (r, t) = parse_ts_traced("\"d\" type A implements I @x { \"e\" f(a: Int = 1 @y): [A] @z } enum E { V } directive @q on FIELD schema { query: A }");
+        assert!(r.is_ok());
+        let kinds: Vec<&str> = t.events.iter().map(|e| e.kind).collect();
+        assert_eq!(
+            kinds,
+            vec![
+                "TypeDef", "Description", "Name", "ImplName", "Directive", "DirName", "FieldDef", "Description", "Name", "InputValueDef", "Name", "Type",
+                "Value", "Directive", "DirName", "Type", "Directive", "DirName", "TypeDef", "Name", "EnumValueDef", "EnumValueName", "DirectiveDef", "Name",
+                "Location", "SchemaDef", "RootKind", "RootType"
+            ]
+        );
+        assert_eq!(t.tokens.iter().find(|u| u.off == 4).map(|u| u.prod), Some("ObjectTypeDefinition"));
     }
 }
